@@ -80,6 +80,48 @@ var props = []PropSpec{
 				Bounds: "set id 2, version 10 assumed; every other byte symbolic; packet length 16..20+B, B = 12 (quick) / 20 (thorough); x 3 decoding modes x {no older template, older template for (7,300)}; 16-bit field count kept symbolic through a lazily sized slice"},
 		},
 	},
+	{
+		ID: "C01", Pkg: "./c01", ReplayPkg: "./cmd/rc01", Level: "model_checking",
+		Assumptions: append([]string{
+			"ASSUMED, not decided: the transport delivers the written bytes unchanged (UDP/DTLS: one Write = one datagram; TCP/TLS: a byte stream, segmentation is C11). Kernel sockets, TLS/DTLS record layers and the IPv4/IPv6 listener dimension cannot be encoded and are not part of the verdict",
+			"what is decided is the codec composition: bytes written by the real ExportingProcess.SendSet, presented to the real CollectingProcess.decodePacket",
+		}, codecAssumptions...),
+		Harnesses: []HarnessSpec{
+			{Func: "Check_EndToEnd", Reach: []string{"delivered"},
+				Bounds: "templates of 1..2 fields over 22 kinds (quick); thorough: 1..2 over 22 kinds and triples over a pool of 10; 1..2 / 1..3 records; variable lengths {0,255} / {0,1,254,255,256}; all values, template id, observation domain symbolic; exporter address 1.2.3.4:5 and [::1]:5"},
+			{Func: "Check_MaxMessage", Reach: []string{"delivered", "max-size"},
+				Bounds: "single string / octet-array field of 254,255,256,65000,65511,65512 bytes (65512 makes the message exactly 65535 bytes), symbolic content"},
+		},
+	},
+	{
+		ID: "C04", Pkg: "./c04", ReplayPkg: "./cmd/rc04", Level: "model_checking",
+		Assumptions: append([]string{
+			"oracle: association list keyed by the symbolic (domain, id) pairs: last valid template wins, a bad template whose id was read removes the entry",
+			"UDP flavour runs with a clock on which no time passes (template lifetime is C10)",
+		}, codecAssumptions...),
+		Harnesses: []HarnessSpec{
+			{Func: "Check_History", Reach: []string{"bad-template", "data-rejected", "data-decoded-A", "data-decoded-B", "final"},
+				Bounds: "histories of k = 3 (quick) / 4 (thorough) messages, each one of {template A, template B (same record size, different shape), bad template (cut short after id / unknown element in strict mode), data}; the (observation domain, template id) of every message is symbolic, so all aliasing patterns are explored by the solver; tcp and udp flavours"},
+		},
+	},
+	{
+		ID: "C16", Pkg: "./c16", ReplayPkg: "./cmd/rc16", Level: "model_checking",
+		Assumptions: append([]string{"well-formed operation order only (a PrepareSet precedes adds), as the property's quantifier states; decoding-mode sets are outside (the property is about builders)"}, codecAssumptions...),
+		Harnesses: []HarnessSpec{
+			{Func: "Check_Sequences", Reach: []string{"reset", "done"},
+				Bounds: "prefix {none, template set + add, data set + add} then ResetSet, then PrepareSet(type, symbolic id) and 1..2 adds through any of the three add paths (extra elements {0,2} quick / 0..3 thorough) with element lists from a menu of 6 (0..3 elements; fixed 1/2/4/8, MAC, IPv4, string, variable octets; IANA, reverse, Antrea), UpdateLenInHeader at any point; every operation mirrored on a fresh NewSet; string lengths {0,255} quick / {0,1,254,255} thorough"},
+			{Func: "Check_AddPaths", Reach: []string{"compared"},
+				Bounds: "1..2 records; first record 0..2 (quick) / 0..3 (thorough) elements, all combinations over a pool of 10 kinds; extra capacity {0,1,3}; template and data sets"},
+		},
+	},
+	{
+		ID: "C17", Pkg: "./c17", ReplayPkg: "./cmd/rc17", Level: "model_checking",
+		Assumptions: append([]string{"wire bytes are produced by the reference encoder from symbolic values; the same bytes are presented to three collectors (strict, keep, drop) and, reduced to the known fields, to a fourth"}, codecAssumptions...),
+		Harnesses: []HarnessSpec{
+			{Func: "Check_Modes", Reach: []string{"strict-rejects", "all-known", "keep-checked", "drop-checked", "reduced-checked"},
+				Bounds: "templates of 1..2 (quick) / 1..3 (thorough) positions, each a known element (6 kinds) or an unknown one (IANA id 999, enterprise 9999, Antrea id 9999) of fixed length 1,2,5 or variable length (payload 0,3,255 bytes); 1 / 1..2 records; all values symbolic"},
+		},
+	},
 }
 
 var _ = sym.Config{}
